@@ -232,6 +232,23 @@ def fail_atomic(rep, F, cg, only=None, rule='FAIL-ATOMIC'):
         miss = [x for x in need if not any(re.search(x, h) for h in have)]
         if miss:
             return e['reason'], 'the excuse relies on validation(s) %s dominating every mutation, but they do not' % miss
+        for group in e.get('requires_same_operands', []):
+            # the named calls made BEFORE any mutation must all be applied to the same operands (e.g. `x != s && x.starts_with(s)`)
+            ops = {}
+            Bn = cg.body(n)
+            after = set()
+            for ev in M.events(n):
+                after |= Bn.reachable_from(ev[0])
+            pre_calls = {skey_call(Bn, t) for i, t in Bn.calls() if i not in after}
+            for h in pre_calls:
+                m = re.match(r'^(\w+)\((.*)\)$', h)
+                if m and m.group(1) in group:
+                    ops.setdefault(m.group(1), set()).add(m.group(2))
+            if any(g not in ops for g in group):
+                return e['reason'], 'the excuse relies on the validations %s dominating every mutation, but %s is missing' % (group, [g for g in group if g not in ops])
+            common = set.intersection(*(ops[g] for g in group))
+            if not common:
+                return e['reason'], 'the excuse relies on %s testing the SAME operands, but they test %s' % (group, {g: sorted(ops[g]) for g in group})
         return e['reason'], None
 
     def unexcused(n):
@@ -494,3 +511,34 @@ class PairCheck:
             ok = p is None
             rep.add(rule, key, what, ok, B.loc(a), '' if ok else '%s: after the call at %s a path completes the operation without the paired update' % (fn, B.loc(a)),
                     [] if ok else ['path: ' + ' -> '.join('bb%d(%s)' % (x, B.loc(x).split(':')[-1]) for x in p[:14])])
+
+
+# ======================================================================================== WHO-CALLS
+def callers_of(F, cg, callee):
+    out = defaultdict(list)
+    for n in cg.names():
+        B = cg.body(n)
+        for i, t in B.calls():
+            if (callee_of(t) or '') == callee:
+                out[n].append(B.loc(i))
+    return out
+
+
+def who_calls(rep, F, cg, table, rule='WHO-CALLS'):
+    """table: callee -> {allowed: [callers], reason}"""
+    rep.rule(rule, 'each mutating accessor of the shared state (insert/remove of entries and data records, set_cwd, the *_mut getters) is called only from the '
+             'bookkeeping functions frozen in tables/who_calls.json; a new caller elsewhere writes an index outside the pairing / validation logic')
+    n = 0
+    for callee, spec in sorted(table.items()):
+        if callee not in F.bodies:
+            rep.add(rule, 'whocalls:%s:anchor' % callee, 'accessor %s exists' % callee, False, detail='accessor %s not found (renamed?)' % callee)
+            continue
+        cs = callers_of(F, cg, callee)
+        allowed = set(spec['allowed'])
+        for caller, locs in sorted(cs.items()):
+            n += 1
+            ok = caller in allowed
+            rep.add(rule, 'whocalls:%s<-%s' % (callee.split('::')[-1], caller), '%s is called by %s, an allowed caller (%s)' % (callee.split('::')[-1], caller, spec['reason']),
+                    ok, locs[0], '' if ok else '%s calls %s (at %s) but is not one of its frozen callers %s' % (
+                        caller, callee.split('::')[-1], locs[0], sorted(x.split('::')[-1] for x in allowed)))
+    rep.floor(rule, 'accessor call sites', n, 12)
